@@ -133,7 +133,7 @@ func realCanon(w *sessrig.World, a *sessrig.Sess, used int, ended bool) string {
 	fmt.Fprintf(&sb, "ended=%v faults=%d ac=%v it=%v idx=%v|", ended, used, st.AutoCommit, st.InTrans, st.NsIndexNow > st.NsIndexCtx)
 	ref := map[int]bool{}
 	one := func(tag, slice string, rc sessrig.RealConn, ok bool, cv [3]bool) {
-		fmt.Fprintf(&sb, "%s:%s=(real=%v srv ac=%v tx=%v gone=%v cli ac=%v tx=%v closed=%v);", tag, slice, ok, rc.AutoCom, rc.InTx, rc.Gone, cv[0], cv[1], cv[2])
+		fmt.Fprintf(&sb, "%s:%s=(real=%v srv ac=%v tx=%v cli ac=%v tx=%v closed=%v);", tag, slice, ok, rc.AutoCom, rc.InTx, cv[0], cv[1], cv[2])
 	}
 	for _, r := range st.TxConns {
 		rc, ok := w.RealConnOf(r.Conn)
@@ -161,10 +161,10 @@ func realCanon(w *sessrig.World, a *sessrig.Sess, used int, ended bool) string {
 		}
 	}
 	for _, c := range w.RealCounters() {
-		cs = append(cs, fmt.Sprintf("%s stale=%v use=%d", c.Pool, c.Gen < maxGen, c.InUse))
+		cs = append(cs, fmt.Sprintf("%s stale=%v use=%d idle=%d", c.Pool, c.Gen < maxGen, c.InUse, c.Active-c.InUse))
 	}
 	sort.Strings(cs)
-	fmt.Fprintf(&sb, "|%v|idle:%v", cs, w.RealIdle(ref))
+	fmt.Fprintf(&sb, "|%v", cs)
 	return sb.String()
 }
 
